@@ -343,6 +343,27 @@ def check_job(case) -> tuple[bool, list[str]]:
         raise Violation(f"JobInstance JSON round trip raised {type(e).__name__}: {e}", "job-json-raises")
     if back != job:
         raise Violation(f"JobInstance differs after JSON round trip: {job!r} -> {back!r}", "job-json")
+    # the same bytes through the file route the gateway uses to hand a job to the process that runs it: written as
+    # gateway.router._spawn_local writes them, read back by the real benchmarks entry point
+    import os
+    import tempfile
+
+    import cascade.benchmarks.__main__ as bench_main
+
+    fd, path = tempfile.mkstemp(prefix="verif-c17-", suffix=".json")
+    try:
+        with os.fdopen(fd, "wb") as f:
+            f.write(raw)
+        try:
+            back2 = bench_main.get_job(None, path)
+        except Exception as e:
+            raise Violation(f"reading the job instance file back raised {type(e).__name__}: {e}", "job-file-raises")
+    finally:
+        os.unlink(path)
+    if back2 != job:
+        diff = [t for t in job.tasks if back2.tasks.get(t) != job.tasks[t]]
+        raise Violation(f"JobInstance differs after the instance-file route (get_job): tasks that differ {diff[:3]}, edges equal "
+                        f"{back2.edges == job.edges}, ext_outputs equal {back2.ext_outputs == job.ext_outputs}", "job-file")
     kw = any(e.sink_input_kw is not None for e in job.edges)
     mo = any(len(t.definition.output_schema) > 1 for t in job.tasks.values())
     return kw and mo, ["job"] + (["job_kw_edge"] if kw else []) + (["job_multi_output"] if mo else [])
